@@ -363,59 +363,69 @@ def remove_qubit(tableau, qubit_position, measurement_determinism="probabilistic
     tableau, outcome, probabilistic = z_measurement_gate(
         tableau, qubit_position, measurement_determinism
     )
-    new_table = np.delete(
-        tableau.table, [qubit_position, qubit_position + n_qubits], axis=1
-    )
-
     if probabilistic:
-        new_table = np.delete(
-            new_table, [probabilistic, probabilistic - n_qubits], axis=0
-        )
-        new_phase = np.delete(tableau.phase, [probabilistic, probabilistic - n_qubits])
-        new_iphase = np.delete(
-            tableau.iphase, [probabilistic, probabilistic - n_qubits]
-        )
+        # the measured qubit is stabilized by +/-Z in row `probabilistic`
+        z_row = probabilistic
     else:
         non_zero = [
             i for i in range(n_qubits) if tableau.destabilizer_x[i, qubit_position] != 0
         ]
         assert len(non_zero) > 0
-        if len(non_zero) == 1:
-            new_table = np.delete(
-                new_table, [non_zero[0], non_zero[0] + n_qubits], axis=0
+        omit_index = non_zero[0]
+        # +/-Z on the measured qubit is the product of the stabilizers paired with these destabilizers:
+        # collect it in the stabilizer row that is going to be removed (and update the destabilizers accordingly)
+        for row in non_zero[1:]:
+            (
+                tableau.table_x,
+                tableau.table_z,
+                tableau.phase,
+                tableau.iphase,
+            ) = row_sum(
+                tableau.table_x,
+                tableau.table_z,
+                tableau.phase,
+                tableau.iphase,
+                omit_index,
+                row,
             )
-            new_phase = np.delete(tableau.phase, [non_zero[0], non_zero[0] + n_qubits])
-            new_iphase = np.delete(
-                tableau.iphase, [non_zero[0], non_zero[0] + n_qubits]
+            (
+                tableau.table_x,
+                tableau.table_z,
+                tableau.phase,
+                tableau.iphase,
+            ) = row_sum(
+                tableau.table_x,
+                tableau.table_z,
+                tableau.phase,
+                tableau.iphase,
+                row + n_qubits,
+                omit_index + n_qubits,
             )
-        else:
-            omit_index = non_zero[0]
-            # remove first element from the non_zero list
-            non_zero = non_zero[1:]
-            # update tableau
-            for row in non_zero:
-                (
-                    tableau.table_x,
-                    tableau.table_z,
-                    tableau.phase,
-                    tableau.iphase,
-                ) = row_sum(
-                    tableau.table_x,
-                    tableau.table_z,
-                    tableau.phase,
-                    tableau.iphase,
-                    omit_index,
-                    row,
-                )
-            # remove columns and then rows
-            new_table = np.delete(
-                tableau.table, [qubit_position, qubit_position + n_qubits], axis=1
+        z_row = omit_index + n_qubits
+    # the other stabilizers must act trivially on the qubit before its columns can be dropped, otherwise the
+    # eigenvalue of Z on the removed qubit is lost from their signs
+    for row in range(n_qubits, 2 * n_qubits):
+        if row != z_row and tableau.table_z[row, qubit_position] == 1:
+            (
+                tableau.table_x,
+                tableau.table_z,
+                tableau.phase,
+                tableau.iphase,
+            ) = row_sum(
+                tableau.table_x,
+                tableau.table_z,
+                tableau.phase,
+                tableau.iphase,
+                z_row,
+                row,
             )
-            new_table = np.delete(
-                new_table, [omit_index, omit_index + n_qubits], axis=0
-            )
-            new_phase = np.delete(tableau.phase, [omit_index, omit_index + n_qubits])
-            new_iphase = np.delete(tableau.iphase, [omit_index, omit_index + n_qubits])
+    # remove columns and then rows
+    new_table = np.delete(
+        tableau.table, [qubit_position, qubit_position + n_qubits], axis=1
+    )
+    new_table = np.delete(new_table, [z_row, z_row - n_qubits], axis=0)
+    new_phase = np.delete(tableau.phase, [z_row, z_row - n_qubits])
+    new_iphase = np.delete(tableau.iphase, [z_row, z_row - n_qubits])
     tableau.shrink(new_table, new_phase, new_iphase)
     return tableau
 
